@@ -296,6 +296,9 @@ def seq_report(obj):
         return {"spliced": _try(lambda: str(obj.get_spliced_sequence()))}
     if cls == "VariantInterval":
         return {"alt": _try(lambda: str(obj.alternative_genomic_sequence))}
+    if cls == "CDSInterval":
+        return {"cds": _try(lambda: str(obj.extract_sequence())), "protein": _try(lambda: str(obj.translate())),
+                "frames": _try(lambda: [f.name for f in obj.frames])}
     return None
 
 
@@ -326,6 +329,9 @@ def children_with_paths(coll):
         out.append((["genes", gi], g))
         for ti, t in enumerate(g.transcripts):
             out.append((["genes", gi, "transcripts", ti], t))
+            if t.cds is not None:
+                # the CDS as an interval of its own (dictionary leg only: it has no data model and no identifier pinning)
+                out.append((["genes", gi, "transcripts", ti, "cds", None], t.cds))
     for ci, c in enumerate(coll.feature_collections):
         out.append((["feature_collections", ci], c))
         for fi, f in enumerate(c.feature_intervals):
@@ -358,14 +364,16 @@ def serialize_one(obj, is_coll):
     import inscripta.biocantor.io.models as M
 
     cls = type(obj).__name__
-    mname, from_fn, _ = MODELS[cls]
-    model_cls = getattr(M, mname)
     forms = {}
     try:
         d = obj.to_dict(export_parent=True) if is_coll else obj.to_dict()
         forms["dict"] = _b64(pickle.dumps(d))
     except Exception as e:
         forms["dict"] = _exc(e)
+    if cls not in MODELS:
+        return forms
+    mname, from_fn, _ = MODELS[cls]
+    model_cls = getattr(M, mname)
     try:
         model = getattr(model_cls, from_fn)(obj, export_parent=True) if is_coll else getattr(model_cls, from_fn)(obj)
         forms["schema"] = json.dumps(model_cls.Schema().dump(model))
@@ -438,8 +446,9 @@ def load_one(cls, form, payload, parent):
         "AnnotationCollection": C.AnnotationCollection, "GeneInterval": G.GeneInterval, "TranscriptInterval": T.TranscriptInterval,
         "FeatureInterval": F.FeatureInterval, "FeatureIntervalCollection": F.FeatureIntervalCollection,
         "VariantInterval": V.VariantInterval, "VariantIntervalCollection": V.VariantIntervalCollection,
+        "CDSInterval": __import__("inscripta.biocantor.gene.cds", fromlist=["CDSInterval"]).CDSInterval,
     }[cls]
-    mname, _, to_fn = MODELS[cls]
+    mname, _, to_fn = MODELS.get(cls, (None, None, None))
     if form == "dict":
         d = pickle.loads(_unb64(payload))
         return klass.from_dict(d) if cls == "AnnotationCollection" else klass.from_dict(d, parent)
@@ -454,7 +463,9 @@ def load_one(cls, form, payload, parent):
 def _get_path(coll, path):
     obj = coll
     for i in range(0, len(path), 2):
-        obj = getattr(obj, path[i])[path[i + 1]]
+        obj = getattr(obj, path[i])
+        if path[i + 1] is not None:
+            obj = obj[path[i + 1]]
     return obj
 
 
@@ -691,6 +702,7 @@ def run_case(case):
     stats = {
         "forms_loaded": sum(1 for r in cons["loaded"] if "report" in r),
         "forms_total": nforms,
+        **{"loaded_" + c: sum(1 for r in cons["loaded"] if "report" in r and r["cls"] == c) for c in {r["cls"] for r in cons["loaded"]}},
         "hashseed_differs": int(str(case["hs_a"]) != str(case["hs_b"])),
         "set_order_differed": int(sorted(prod["set_order_probe"]) == sorted(cons["set_order_probe"]) and prod["set_order_probe"] != cons["set_order_probe"]),
         "restart": 1,
@@ -903,6 +915,7 @@ def evidence(agg, tier, seed, wall, batches):
             "hashseed(producer!=consumer)": st["hashseed_differs"], "restart(bytes only survive)": st["restart"],
             "permute_sets(insertion order differs)": st["permute_sets"], "warm_before_serialize": st["warm_before_serialize"],
             "fresh_interpreter_consumer": st["fresh_interpreter"],
+            "forms_loaded_by_class": {k[7:]: v for k, v in st.items() if k.startswith("loaded_")},
             "stale_consumer(first loaded a same-named other-bases collection, or built an unrelated rich collection)": st["stale_consumer"],
         },
         "reach_probes": {
